@@ -642,6 +642,11 @@ Section Build.
   Lemma lag_build : has_lag_time (build s) = s_lag s.
   Proof. unfold has_lag_time. rewrite dosing0_build. apply fnode_lag. Qed.
 
+  Lemma fnode_bio : n_bio fnode = s_bio s.
+  Proof. unfold fnode, mk_node. rewrite name_eqb_refl. reflexivity. Qed.
+  Lemma bio_build : has_bioavailability (build s) = s_bio s.
+  Proof. unfold has_bioavailability. rewrite dosing0_build. apply fnode_bio. Qed.
+
   Lemma fo_build :
     has_first_order_absorption (build s) = (s_depot s || negb (Nat.eqb n 0)).
   Proof.
@@ -706,7 +711,7 @@ Section Build.
   Proof.
     unfold detect, canon.
     rewrite detect_abs_build, detect_elim_build, find_transits_build, length_transit_names,
-      find_depot_build, find_peripherals_build, lag_build.
+      find_depot_build, find_peripherals_build, lag_build, bio_build.
     f_equal. destruct (canon_depot s); [rewrite n_name_mk_node|]; reflexivity.
   Qed.
 End Build.
